@@ -170,6 +170,9 @@ MUTANTS = [
     ('bcargs', BCCALL, '                        args,\n                        kwargs,\n                    };', '                        args: kwargs,\n                        kwargs: args,\n                    };', 'ArgsCompiledValue::write_bc'),
     ('fsdepth', LEX, 'state.paren_depth = state.paren_depth.saturating_sub(1);', 'state.paren_depth -= 1;', 'track_fstring_paren'),
     ('fsdepth', LEX, 'state.bracket_depth = state.bracket_depth.saturating_sub(1);', 'state.bracket_depth -= 1;', 'track_fstring_bracket'),
+    ('int', BIG, '        Ok(Some(NumRef::Int(StarlarkIntRef::Big(self))) == other.unpack_num())', '        match other.unpack_num() {\n            Some(NumRef::Float(_)) => Ok(false),\n            other => Ok(Some(NumRef::Int(StarlarkIntRef::Big(self))) == other),\n        }', 'C09.value.big.equals'),
+    ('int', BIG, '        Ok(Some(NumRef::Int(StarlarkIntRef::Big(self))) == other.unpack_num())', '        Ok(other.unpack_num() == Some(NumRef::Int(StarlarkIntRef::Big(self))))', 'EQUIVALENT'),
+    ('int', BIG, '            Some(other) => Ok(NumRef::Int(StarlarkIntRef::Big(self)).cmp(&other)),', '            Some(other) => Ok(other.cmp(&NumRef::Int(StarlarkIntRef::Big(self)))),', 'C09.value.big.compare'),
     ('calls', INSTR, '        eval.with_call_stack(self.to_value(), Some(location), |eval| {\n            self.invoke(args, eval)\n        })', '        self.invoke(args, eval)', 'bc_invoke'),
     ('calls', 'starlark/src/values/layout/value.rs', '        eval.with_call_stack(self, location, |eval| {\n            self.get_ref_full().invoke(args, eval)\n        })', '        self.get_ref_full().invoke(args, eval)', 'invoke_with_loc'),
     ('strindex', STRT, 'let ind = CharIndex(i.unsigned_abs() as usize);', 'let ind = CharIndex((-i) as usize);', 'at'),
